@@ -515,6 +515,9 @@ static void run_line(void)
 		printf("%d %d ", n1, n2); puthex((unsigned char*)out, n2 > 0 ? (size_t)n2 : 0);
 		free(inp); free(out); free(b.p);
 	}
+	else if (!strcmp(op, "ledger")) printf("0");
+	else if (!strcmp(op, "nallocs")) printf("%ld", vf_count);
+	else if (!strcmp(op, "nlive")) printf("%ld", vf_live);
 	else if (!strcmp(op, "allocfail")) { vf_fail_at = vf_count + atol(tok[1]); printf("0"); }
 	else if (!strcmp(op, "allocs")) printf("# %ld", vf_count);
 	else if (!strcmp(op, "live")) printf("# %ld", vf_live);
